@@ -2,6 +2,7 @@ package main
 
 import (
 	"fmt"
+	"go/constant"
 	"go/token"
 	"go/types"
 	"reflect"
@@ -30,6 +31,7 @@ func checkC02(c *Ctx, r *Report) {
 	r.rule("C02.R8", "every CHOICE value built by the module selects (Present) exactly the alternative it fills", 3)
 	r.rule("C02.R7", "every type reachable from the record round-trips through the JSON deep copy of the split (exhaustive over the type graph)", 40)
 	r.rule("C02.R10", "a session reference designates the record of one session only: allocated number, injective construction, writers of ue.Cdr, a new record per new reference (shared with C10.R1/R2/R3/R6) - otherwise usage reported for one session lands in another session's record", 4)
+	r.rule("C02.R11", "the records and containers built in a loop do not share a variable: an address put into the element of an iteration is that of a variable of that iteration", 4)
 	r.rule("C02.R6", "a record that continues a session starts with a fresh empty usage list (no shared backing array, no repeated containers)", 2)
 
 	c02RecordSelection(c, r)
@@ -38,6 +40,31 @@ func checkC02(c *Ctx, r *Report) {
 	c02Cause(c, r)
 	c02Timestamp(c, r)
 	c02SplitFresh(c, r, "C02.R6")
+	// R11: no variable shared by the containers / records a loop builds
+	{
+		n := 0
+		for _, f := range c.ModFuncs {
+			if f.Pkg == nil || !(strings.HasSuffix(f.Pkg.Pkg.Path(), "/cdr/cdrConvert") || strings.HasSuffix(f.Pkg.Pkg.Path(), "/internal/sbi/processor")) {
+				continue
+			}
+			hasLoop := false
+			for _, b := range f.Blocks {
+				if inCycle(b) {
+					hasLoop = true
+				}
+			}
+			if !hasLoop {
+				continue
+			}
+			n++
+			fs := loopSharedAddressFindings(c, f)
+			bad, pos := "", c.rel(f.Pos())
+			if len(fs) > 0 {
+				bad, pos = fs[0].what+": a container that was reported with its own value is recorded with another one's", c.rel(fs[0].pos)
+			}
+			r.check(bad == "", "C02.R11", fnKey(f)+"|per-iteration variables", pos, "no variable declared in front of a loop has its address put into what the iterations build", bad)
+		}
+	}
 	r.shareFrom(c, checkC10, map[string]string{"C10.R1": "C02.R10", "C10.R2": "C02.R10", "C10.R3": "C02.R10", "C10.R6": "C02.R10"})
 	c02DeepCopyFidelity(c, r, "C02.R7")
 	c02ChoiceSelectors(c, r, "C02.R8")
@@ -439,11 +466,13 @@ func c02Provenance(c *Ctx, r *Report) {
 			case *ssa.FieldAddr:
 				if n := namedOf(x.X.Type()); n != nil && n.Obj().Pkg() != nil && (n.Obj().Pkg().Path() == modelsPath || n.Obj().Pkg().Path() == ctxPath) {
 					out[fieldName(x)] = true
+					out["@"+n.Obj().Name()+"."+fieldName(x)] = true // qualified by the owning type
 				}
 			case *ssa.Field:
 				if st, ok := x.X.Type().Underlying().(*types.Struct); ok {
 					if n := namedOf(x.X.Type()); n != nil && n.Obj().Pkg() != nil && n.Obj().Pkg().Path() == modelsPath {
 						out[st.Field(x.Field).Name()] = true
+						out["@"+n.Obj().Name()+"."+st.Field(x.Field).Name()] = true
 					}
 				}
 			case *ssa.Parameter:
@@ -475,7 +504,23 @@ func c02Provenance(c *Ctx, r *Report) {
 			found := false
 			bad := ""
 			for _, lit := range lits {
-				for _, fs := range flattenStoresDeep(f, lit) {
+				stores := flattenStoresDeep(f, lit)
+				// later assignments through a pointer member of the literal (rec.ChargingID.Value = ..)
+				eachInstr(f, func(_ *ssa.BasicBlock, _ int, ins ssa.Instruction) {
+					st, ok := ins.(*ssa.Store)
+					if !ok {
+						return
+					}
+					if ap, ok := pathOf(st.Addr); ok && ap.Root == ssa.Value(lit) && strings.Join(ap.Elems, ".") == row.dst {
+						for _, fs := range stores {
+							if fs.val == st.Val && fs.path == row.dst {
+								return
+							}
+						}
+						stores = append(stores, flatStore{row.dst, st.Val, st})
+					}
+				})
+				for _, fs := range stores {
 					if fs.path != row.dst {
 						continue
 					}
@@ -485,9 +530,18 @@ func c02Provenance(c *Ctx, r *Report) {
 					found = true
 					got := srcFields(f, fs.val)
 					if !got[row.src] {
-						bad = "does not take its value from " + row.src + " (depends on " + strings.Join(sortedKeysB(got), ", ") + ")"
+						var plain []string
+						for _, k := range sortedKeysB(got) {
+							if !strings.HasPrefix(k, "@") || strings.HasPrefix(row.src, "@") {
+								plain = append(plain, strings.TrimPrefix(k, "@"))
+							}
+						}
+						bad = "does not take its value from " + strings.TrimPrefix(row.src, "@") + " (depends on " + strings.Join(plain, ", ") + ")"
 					}
 					for s := range got {
+						if strings.HasPrefix(s, "@") {
+							continue
+						}
 						if s != row.src && tableSrc[s] {
 							bad = "also depends on " + s + ", which belongs to another member (members swapped?)"
 						}
@@ -514,7 +568,7 @@ func c02Provenance(c *Ctx, r *Report) {
 	check(c.fn("internal/sbi/processor", "Processor.OpenCDR"), "ChargingRecord", []provRow{
 		{"SubscriberIdentifier.SubscriptionIDData", "Supi"},
 		{"ChargingSessionIdentifier.Value", "param:sessionId"},
-		{"ChargingID.Value", "ChargingId"},
+		{"ChargingID.Value", "@ChfConvergedChargingChargingDataRequest.ChargingId"}, // the request's own id, not the optional one inside pDUSessionChargingInformation
 	})
 	check(c.fn("internal/sbi/processor", "Processor.OpenCDR"), "NetworkFunctionInformation", []provRow{
 		{"NetworkFunctionName.Value", "NFName"},
@@ -726,6 +780,28 @@ func c02Cause(c *Ctx, r *Report) {
 	})
 	if nPartial == 0 || nNormal == 0 {
 		r.viol("C02.R4", key+"|causes", c.rel(f.Pos()), "expected a cause for the partial and for the normal edge")
+	}
+	// who asks for which cause: a released session (and a one-time event) is closed normally,
+	// whatever the credit control of the same request reported
+	for _, g := range c.ModFuncs {
+		eachInstr(g, func(_ *ssa.BasicBlock, _ int, ins ssa.Instruction) {
+			call, ok := ins.(*ssa.Call)
+			if !ok || call.Call.StaticCallee() != f || len(call.Call.Args) < 3 {
+				return
+			}
+			root := rootOf(g)
+			arg := call.Call.Args[len(call.Call.Args)-1]
+			k := fnKey(root) + "|cause asked for"
+			switch root.Name() {
+			case "ChargingDataRelease", "ChargingDataCreate":
+				kv, isConst := arg.(*ssa.Const)
+				r.check(isConst && kv.Value != nil && !constant.BoolVal(kv.Value), "C02.R4", k, posOf(c, call), "closed with the normal cause (constant false)",
+					"the record is closed with a cause that depends on "+describe(arg)+" instead of the normal release: a released session whose last usage report did not end in a FINAL trigger is filed as a partial record (cause 1), although the session is over")
+			default:
+				_, isConst := arg.(*ssa.Const)
+				r.check(!isConst, "C02.R4", k, posOf(c, call), "closed with the cause the credit control of the request reports", "an update closes the record with a constant cause: the partial-record edge of the statement can no longer be taken (or is always taken)")
+			}
+		})
 	}
 }
 
